@@ -453,6 +453,97 @@ def rule_d9(repo):
                         'does not occur in its own definition' % (app.lineno, src(elem, 30), keys[0]), '%s:%d' % (rel, app.lineno))
     return res
 
+def rule_d10(repo):
+    """The extension generated from an accepted item has to be well typed.  Most of that is a property of run-time values,
+    but one part is written into the generating code: a predicate variable declared as `P :: D => bool` is applied to
+    variables that the same function makes (`Var(nm, T2)`), and the application is well typed only if T2 *is* D.  Where
+    the type of such a variable comes out of a loop (the argument types of a constructor), the application must be behind
+    the test `T2 == D` - a test of the head of the type only (`T2.name == self.name`) lets `nat ntree` through where
+    `'a ntree` is required, and the induction theorem of a non-uniformly recursive datatype is ill-typed."""
+    res = RuleResult('C11.D10', 'a generated predicate variable P :: D => bool is applied only to variables of type D', floor=2)
+    for cname, c in sorted(repo.module(ITEMS).classes.items()):
+        f = c.methods.get('get_extension')
+        if f is None:
+            continue
+        flow = flow_of(f.node)
+        preds = {}
+        for n in ast.walk(f.node):
+            if isinstance(n, ast.Assign) and len(n.targets) == 1 and isinstance(n.targets[0], ast.Name) and isinstance(n.value, ast.Call) and \
+                    call_name(n.value) == 'Var' and len(n.value.args) == 2 and isinstance(n.value.args[1], ast.Call) and call_name(n.value.args[1]) == 'TFun' and \
+                    len(n.value.args[1].args) == 2 and src(n.value.args[1].args[1]) in ('BoolType', 'boolT') and isinstance(n.value.args[1].args[0], ast.Name):
+                preds[n.targets[0].id] = n.value.args[1].args[0].id
+        if not preds:
+            continue
+        parents = {}
+        for x in ast.walk(f.node):
+            for ch in ast.iter_child_nodes(x):
+                parents[id(ch)] = x
+
+        def var_type(e, depth=0):
+            """the type expression of a variable made here, and the name it is known under (for `name.T == D` tests)"""
+            if isinstance(e, ast.Call) and call_name(e) == 'Var' and len(e.args) == 2:
+                return e.args[1], None
+            if isinstance(e, ast.Name) and depth < 3:
+                ds = [d for d in flow.defs.get(e.id, []) if d[0] != 'update']
+                # the binder around this occurrence: a generator of an enclosing comprehension, or an enclosing for loop
+                x = e
+                while id(x) in parents:
+                    x = parents[id(x)]
+                    gens = x.generators if isinstance(x, (ast.ListComp, ast.GeneratorExp, ast.SetComp)) else []
+                    hit = [g for g in gens if is_name(g.target, e.id)]
+                    if hit:
+                        ds = [('elem', hit[0].iter)]
+                        break
+                    if isinstance(x, ast.For) and is_name(x.target, e.id):
+                        ds = [('elem', x.iter)]
+                        break
+                if len(ds) == 1 and ds[0][0] == 'elem':
+                    it = flow.inline(ds[0][1])
+                    if isinstance(it, ast.Call) and is_name(it.func, 'reversed') and it.args:
+                        it = it.args[0]
+                    if isinstance(it, ast.ListComp) and len(it.generators) == 1:
+                        t, _ = var_type(it.elt, depth + 1)
+                        if t is not None:
+                            return t, e.id
+                if len(ds) == 1 and ds[0][0] == 'value':
+                    return var_type(ds[0][1], depth + 1)
+            return None, None
+
+        def guarded(call, tyexpr, alias, dom):
+            """an enclosing comprehension condition or if-test says the variable's type equals dom"""
+            texts = {src(tyexpr)}
+            if alias:
+                texts |= {alias + '.T', alias + '.get_type()'}
+            x = call
+            while id(x) in parents:
+                par = parents[id(x)]
+                conds = []
+                if isinstance(par, (ast.ListComp, ast.GeneratorExp, ast.SetComp)):
+                    conds = [c_ for g in par.generators for c_ in g.ifs]
+                if isinstance(par, ast.If) and any(x is b or any(x is y for y in ast.walk(b)) for b in par.body):
+                    conds = [par.test]
+                for cnd in conds:
+                    for cj in (cnd.values if isinstance(cnd, ast.BoolOp) and isinstance(cnd.op, ast.And) else [cnd]):
+                        cp = compare_parts(cj)
+                        if cp and cp[0] is ast.Eq and ((src(cp[1]) in texts and is_name(cp[2], dom)) or (src(cp[2]) in texts and is_name(cp[1], dom))):
+                            return True
+                x = par
+            return False
+        for call in ast.walk(f.node):
+            if not (isinstance(call, ast.Call) and isinstance(call.func, ast.Name) and call.func.id in preds and len(call.args) == 1):
+                continue
+            dom = preds[call.func.id]
+            ty, alias = var_type(call.args[0])
+            if ty is None:
+                continue          # an application of a constant: its type is the declared one, not this rule's subject
+            ok = is_name(ty, dom) or guarded(call, ty, alias, dom)
+            res.add('%s :: %s.get_extension :: %s(%s)@%d' % (ITEMS, cname, call.func.id, src(call.args[0], 30), call.lineno - f.node.lineno), ok,
+                    'the variable has type %s' % dom if ok else
+                    'line %d applies %s :: %s => bool to a variable of type `%s` that is not tested to equal %s: for a datatype that occurs in its own '
+                    'constructors at another instance (nat ntree inside \'a ntree) the generated theorem is ill-typed' % (
+                        call.lineno, call.func.id, dom, src(ty), dom), '%s:%d' % (ITEMS, call.lineno))
+    return res
+
 
 def rules(repo):
-    return [rule_d1(repo), rule_d2(repo), rule_d3(repo), rule_d4(repo), rule_d5(repo), rule_d6(repo), rule_d7(repo), rule_d8(repo), rule_d9(repo)]
+    return [rule_d1(repo), rule_d2(repo), rule_d3(repo), rule_d4(repo), rule_d5(repo), rule_d6(repo), rule_d7(repo), rule_d8(repo), rule_d9(repo), rule_d10(repo)]
